@@ -472,6 +472,8 @@ def run_impl(case):
                     scripted.do_ctl(proc, ev[1])
                 except Exception:
                     pass
+            elif k == 'cancel':
+                proc.future().cancel()
             elif k == 'ext':
                 f = proc._sc_future(ev[1]) if hasattr(proc, '_sc_future') else c07_procs.ext_future(sc.loop, ev[1])
                 if not f.done():
@@ -649,6 +651,7 @@ CTL_SCHEDULES = [
     [(1, ['ctl', ['pause', None]]), (2, ['ctl', ['kill', 'k']])],
     [(1, ['ctl', ['kill', None]])],
     [(0, ['ctl', ['pause', 'p0']]), (1, ['ctl', ['resume', 42]]), (3, ['ctl', ['play']])],
+    [(1, ['cancel'])],          # the owner cancels the process future: the snapshot taken before the kill callback runs holds a cancelled future
 ]
 
 
